@@ -93,6 +93,7 @@ def read_task(prop, cfg, tier, seed):
             opaque=("parent",) if has_parent else (),
             prefer=[nbat <= 1 << 20] + ([length <= 16 << 20] if cs <= (4 << 20) else []))
         ctx.scenario.wide = [offset >= 1 << 39]
+        ctx.scenario.small = [nbat]
         obj = m.HDS(fh, parent)
         res = obj._read(offset, length)
         sv = spec.guest_byte(offset + j, version, tracks, mem, par)
